@@ -39,6 +39,7 @@ func VH_C07_mul64() {
 
 // byte-length API (the one NAS uses): every message length in octets, algorithms 1..3
 func VH_C07_nasmac() {
+	c0xFullDepth()
 	n := c07octets()
 	alg := uint8(vrt.Choose("alg", 1, 3))
 	ik := c07key("ik")
@@ -63,6 +64,7 @@ func VH_C07_nasmac() {
 
 // per-algorithm functions with bit lengths that are not multiples of 8, 32 or 64 (pad bits of the last octet zero)
 func VH_C07_nia1_bits() {
+	c0xFullDepth()
 	hi := 72
 	if vrt.Thorough() {
 		hi = 136
@@ -82,6 +84,7 @@ func VH_C07_nia1_bits() {
 }
 
 func VH_C07_nia3_bits() {
+	c0xFullDepth()
 	hi := 72
 	if vrt.Thorough() {
 		hi = 136
@@ -121,3 +124,9 @@ func c07abstract() {
 func VH_C07_abs_nasmac()    { c07abstract(); VH_C07_nasmac() }
 func VH_C07_abs_nia1_bits() { c07abstract(); VH_C07_nia1_bits() }
 func VH_C07_abs_nia3_bits() { c07abstract(); VH_C07_nia3_bits() }
+
+// Full-depth comparisons (real keystream generators on both sides): on the unchanged tree both sides normalise to
+// the same term and nothing is asked of the solver. If they do not, a disequality through 33 cipher clocks is out
+// of reach for z3, so those queries get a short timeout and end INCONCLUSIVE quickly; counterexamples for such
+// deviations come from the one-step lemmas and the abs_ variants of the same harnesses.
+func c0xFullDepth() { vrt.QueryTimeout(3000) }
